@@ -1,5 +1,6 @@
 import TangeloProofs.Lemmas.OpInverse
 import TangeloProofs.CycLaws
+import TangeloProofs.Lemmas.Commute
 import TangeloProofs.Lemmas.CircuitInv
 import TangeloModel.Clifford
 /-!
@@ -323,6 +324,45 @@ theorem two_pi_rotation_signId (k : Consts R) (L : k.Laws) (b : Base) (hb : b = 
   have h := rotation_shift_two_pi k L b hb 0 t ψ x
   rw [Ang.zero_add'] at h
   rw [h, zero_rotation_id k L b hb t [] ψ]; ring
+
+/-! ## rewriting at a distance: what the merge / cancel passes do when other gates lie in between -/
+
+/-- operations on disjoint qubit sets commute (every pair of kinds: controlled one-qubit gates, controlled swaps, XX) -/
+theorem disjoint_ops_commute (k : Consts R) (o o' : Op) (hd : ∀ q ∈ o.qubits, q ∉ o'.qubits) (ψ : State R) :
+    o.sem k (o'.sem k ψ) = o'.sem k (o.sem k ψ) := Op.comm_disjoint k o o' hd ψ
+
+/-- a gate can be moved across any block of gates that touch none of its qubits -/
+theorem move_across (k : Consts R) (o : Op) (mid : List Op) (hd : ∀ o' ∈ mid, ∀ q ∈ o.qubits, q ∉ o'.qubits) (ψ : State R) :
+    o.sem k (semOps k mid ψ) = semOps k mid (o.sem k ψ) := by
+  induction mid generalizing ψ with
+  | nil => rfl
+  | cons m ms ih =>
+    have e1 : semOps k (m :: ms) ψ = semOps k ms (m.sem k ψ) := rfl
+    have e2 : semOps k (m :: ms) (o.sem k ψ) = semOps k ms (m.sem k (o.sem k ψ)) := rfl
+    rw [e1, e2, ih (fun o' h => hd o' (List.mem_cons_of_mem _ h)), Op.comm_disjoint k o m (hd m List.mem_cons_self)]
+
+/-- **merging at a distance** (the step of `merge_rotations`): a rotation is folded into the previous rotation on
+    the same target and controls although other gates were emitted in between, provided none of them touches
+    its qubits — which is what the per-qubit "last gate" table guarantees -/
+theorem merge_at_distance_sound (k : Consts R) (L : k.Laws) (b : Base) (hb : b = .RX ∨ b = .RY ∨ b = .RZ ∨ b = .PHASE)
+    (a a' : Ang) (t : Nat) (cs : List Nat) (ht : t ∉ cs) (pre mid : List Op)
+    (hd : ∀ o' ∈ mid, ∀ q ∈ (Op.one b a' t cs).qubits, q ∉ o'.qubits) (ψ : State R) :
+    semOps k (pre ++ [Op.one b a t cs] ++ mid ++ [Op.one b a' t cs]) ψ
+      = semOps k (pre ++ [Op.one b (a + a') t cs] ++ mid) ψ := by
+  simp only [semOps_append]
+  have e : ∀ φ, semOps k [Op.one b a' t cs] φ = (Op.one b a' t cs).sem k φ := fun _ => rfl
+  have e0 : ∀ (θ : Ang) φ, semOps k [Op.one b θ t cs] φ = (Op.one b θ t cs).sem k φ := fun _ _ => rfl
+  rw [e, move_across k _ mid hd, e0, e0, merge_pair_sound k L b hb a a' t cs ht]
+
+/-- **cancelling at a distance** (the step of `remove_redundant_gates`): a gate and its inverse disappear although
+    other gates lie in between, provided none of them touches the gate's qubits -/
+theorem cancel_at_distance_sound (k : Consts R) (L : k.Laws) (o : Op) (hwf : o.qubits.Nodup) (pre mid : List Op)
+    (hd : ∀ o' ∈ mid, ∀ q ∈ o.inv.qubits, q ∉ o'.qubits) (ψ : State R) :
+    semOps k (pre ++ [o] ++ mid ++ [o.inv]) ψ = semOps k (pre ++ mid) ψ := by
+  simp only [semOps_append]
+  have e : ∀ φ, semOps k [o.inv] φ = o.inv.sem k φ := fun _ => rfl
+  have e0 : ∀ φ, semOps k [o] φ = o.sem k φ := fun _ => rfl
+  rw [e, move_across k _ mid hd, e0, Op.inv_sem k L o hwf]
 
 /-! ## concatenation, repetition, copy -/
 
